@@ -281,11 +281,11 @@ def parse_fn_block(lines, i, tname=''):
                 if len(w) >= 4 and w[2] == 'iter':
                     spec['loops'][k]['iter'] = w[3]
                 cur = spec['loops'][k]['text']
-            elif w[0] in ('before', 'after'):
-                mm = re.match(r'(before|after)\s+"(.*)"(?:\s+#(\d+))?$', d)
+            elif w[0] in ('before', 'after', 'before?', 'after?'):
+                mm = re.match(r'(before|after)\??\s+"(.*)"(?:\s+#(\d+))?$', d)
                 if not mm:
                     raise LostAnchor('bad anchor directive: ' + d)
-                a = dict(where=mm.group(1), lit=mm.group(2), k=int(mm.group(3) or 1), text=[], tmpl_line='%s:%d' % (tname, i + 1))
+                a = dict(where=mm.group(1), optional=w[0].endswith('?'), lit=mm.group(2), k=int(mm.group(3) or 1), text=[], tmpl_line='%s:%d' % (tname, i + 1))
                 spec['anchors'].append(a)
                 cur = a['text']
             elif w[0] == 'closure':
@@ -647,8 +647,12 @@ class Gen:
             for _ in range(a['k']):
                 idx = body_text.find(a['lit'], start)
                 if idx < 0:
+                    if a.get('optional'):
+                        break
                     raise LostAnchor('anchor "%s" #%d not found in %s' % (a['lit'], a['k'], sel))
                 start = idx + 1
+            if idx < 0:
+                continue
             pos = bo + idx
             if a['where'] == 'before':
                 p = line_start(text, pos)
